@@ -352,6 +352,7 @@ type AttemptPlan struct {
 	SkipError         bool // the caller does not call Error() after this attempt (Stream already returned an error)
 	HookTrace         bool // record the library's hook points of this attempt (implementation-level trace)
 	HookFuzz          uint64 // non-zero: seeded pseudo-random delays at every hook point
+	Deadline          bool       // the attempt's context also carries a (far) deadline: context.WithTimeout instead of WithCancel only
 	MapperCancels     bool       // the table mapper cancels the attempt's context just before it fails (MapperFault)
 	LeakFirst         bool       // look for goroutines left behind BEFORE the first Error() call (a caller need not call Error() for them to go away)
 	Script            [][]string // non-nil: a behaviour of MC_Conn (Gen_Conn.tla) replayed with the hook points as scheduler gates
@@ -365,7 +366,7 @@ func (a AttemptPlan) J() M {
 	m := M{"pacing": a.Pacing, "end": a.End, "connfault": orNone(a.ConnFault), "handlerErrAt": a.HandlerErrAt,
 		"mapperFault": orNone(a.MapperFault), "handlerErrKind": orNone(a.HandlerErrKind), "cancelAtTx": a.CancelAtTx, "cancelAtPkt": a.CancelAtPkt,
 		"handlerBlock": a.HandlerBlock, "releaseDelayMs": a.ReleaseDelayMs, "scribble": a.Scribble, "dead": a.Dead, "cancelAfterReturn": a.CancelAfterReturn,
-		"logDelayMs": a.LogDelayMs, "skipError": a.SkipError, "hookTrace": a.HookTrace, "hookFuzz": a.HookFuzz != 0, "scripted": a.Script != nil, "leakFirst": a.LeakFirst, "mapperCancels": a.MapperCancels, "script": scriptJ(a.Script)}
+		"logDelayMs": a.LogDelayMs, "skipError": a.SkipError, "hookTrace": a.HookTrace, "hookFuzz": a.HookFuzz != 0, "scripted": a.Script != nil, "leakFirst": a.LeakFirst, "mapperCancels": a.MapperCancels, "deadline": a.Deadline, "script": scriptJ(a.Script)}
 	if a.Fault != nil {
 		m["fault"] = M{"kind": a.Fault.Kind, "at": a.Fault.At, "code": int(a.Fault.Code), "msg": B(a.Fault.Msg)}
 	} else {
@@ -592,6 +593,12 @@ func (rs *runState) runAttempt(att int, a AttemptPlan, dsnOverride string) {
 
 	ctx, cancel := context.WithCancel(context.Background())
 	defer cancel()
+	if a.Deadline {
+		// a caller may bound the whole run: the deadline is far away and never fires during the attempt
+		var c2 context.CancelFunc
+		ctx, c2 = context.WithTimeout(ctx, time.Hour)
+		defer c2()
+	}
 	var cancelledAt time.Time
 	var cmu sync.Mutex
 	doCancel := func(why string) {
